@@ -199,7 +199,7 @@ func C08(c *ev.Ctx) {
 		// sibling paths whose order as Go paths differs from the order of their mapped Coq names ('-' < '/' but '.' < '_')
 		{"a-b/u1", "a/u2", "a.b/u3"},
 		// a directory (not the package) named trusted_*: only the LAST element decides the trusted namespace
-		{"trusted_x/u1", "u2", "trusted_y/trusted_u3"}}
+		{"u1", "trusted_x/u2", "trusted_y/trusted_u3"}, {"trusted_x/u1", "trusted_x/sub/u2", "u3"}}
 	mk := func(n int, pick func(opts int) int) c08Case {
 		cs := c08Case{groveDep: pick(2) == 1}
 		dset := dirs[pick(len(dirs))]
